@@ -102,7 +102,7 @@ PLAN["C01"] = {
 PLAN["C11"] = {
     "level": "proof",
     "technique": "Verus contracts on the real fill_one/fill_zero (all n < 64) + Kani contract triples on every named constructor of Lut/LutN per size with k and the count mask symbolic over all of usize, against a population-count oracle on a symbolic assignment",
-    "level_text": "zero/one are proved for every n by Verus. nth_var, symmetric, equals, threshold, parity, majority, Default are proved per type LutN N=0..12 and Lut n=0..14 by fully unwound Kani triples: for every count mask c and every k in the whole usize range (so 63, 64, 65, usize::MAX are covered) and every assignment m, the value is the named function of popcount(m); no arithmetic overflow or panic; result well-formed.",
+    "level_text": "zero/one are proved for every n by Verus. nth_var, symmetric, equals, threshold, parity, majority, Default are proved per type LutN N=0..12 and Lut n=0..12 (zero/one/nth_var to 14) by fully unwound Kani triples: for every count mask c and every k in the whole usize range (so 63, 64, 65, usize::MAX are covered) and every assignment m, the value is the named function of popcount(m); no arithmetic overflow or panic; result well-formed.",
     "level_note": "Trusted: Verus/Z3/vstd, Kani/CBMC, rustc. fill_nth_var/fill_symmetric use enumerate()/count_ones, outside Verus's subset: complete per size, not unbounded.",
     "verus_units": ["kernels"],
     "kani_units": ["spec_ops.rs", "c11_constructors.rs"],
@@ -116,9 +116,9 @@ PLAN["C11"] = {
         "fill_zero": {"filters": ["c11q_s_const", "c11t_s_const", "c11q_d_const", "c11t_d_const"], "complete": True},
     },
     "assumptions": _VERUS_ASSUMED + [
-        "Kani triples fix the size per harness: LutN 0..12, Lut 0..14 (the property's range)",
+        "Kani triples fix the size per harness: LutN 0..12, Lut 0..14 for zero/one/nth_var; the symmetric family (symmetric, equals, threshold, parity, majority) on Lut stops at n = 12: at n = 13, 14 one triple needs > 25 min and 8 GB (measured), so those two sizes of the property's range are NOT covered for that family",
     ],
-    "scope_note": "Verus: fill_one/fill_zero unbounded. Kani: complete per size for LutN 0..12 and Lut 0..14, k and count masks over all of usize.",
+    "scope_note": "Verus: fill_one/fill_zero unbounded. Kani: complete per size for LutN 0..12 and Lut 0..12 (constants/nth_var to 14), k and count masks over all of usize.",
 }
 
 
